@@ -652,6 +652,37 @@ func (a *Analysis) IdxGuard() *report.RuleResult {
 							}
 						}
 						lt := pr.term(x.Lhs[0])
+						if x.Tok == token.ADD_ASSIGN || x.Tok == token.SUB_ASSIGN {
+							// x += e / x -= e: the same as x = x ± e
+							if e, ok := pr.lin(x.Rhs[0]); ok {
+								if _, self := e.T[lt]; !self {
+									sign := 1
+									if x.Tok == token.SUB_ASSIGN {
+										sign = -1
+									}
+									var nf []fact
+									for _, f := range facts {
+										if c, ok := f.E.T[lt]; ok {
+											g := f.E.clone()
+											for t, ct := range e.T {
+												g.T[t] -= sign * c * ct
+												if g.T[t] == 0 {
+													delete(g.T, t)
+												}
+											}
+											g.K -= sign * c * e.K
+											nf = append(nf, fact{E: g, Ne: f.Ne})
+										} else {
+											nf = append(nf, f)
+										}
+									}
+									facts = nf
+									continue
+								}
+							}
+							facts = kill(facts, lt)
+							continue
+						}
 						if x.Tok == token.DEFINE || x.Tok == token.ASSIGN {
 							// p := lex.p makes p an alias as long as neither changes
 							if id, ok := x.Lhs[0].(*ast.Ident); ok && types.ExprString(x.Rhs[0]) == "lex.p" && x.Tok == token.DEFINE {
